@@ -83,12 +83,17 @@ func main() {
 	n := flag.Int("n", 6, "parameter sets per mode")
 	d := flag.Int("depth", 2, "depth")
 	b := flag.Int("batch", 2, "batch")
+	dd := flag.Int("deldepth", 0, "depth of the deletion system (default: -depth)")
 	flag.Parse()
+	if *dd == 0 {
+		*dd = *d
+	}
+	depthOf := map[string]int{"insertion": *d, "deletion": *dd}
 	g := gen.New(*seed)
 	keys := map[string]string{"insertion": filepath.Join(*dir, "ins.keys"), "deletion": filepath.Join(*dir, "del.keys")}
 	label := map[string]string{"insertion": "I", "deletion": "D"}
 	for _, mode := range []string{"insertion", "deletion"} {
-		r := run(nil, "setup", "--mode", mode, "--output", keys[mode], "--tree-depth", fmt.Sprint(*d), "--batch-size", fmt.Sprint(*b))
+		r := run(nil, "setup", "--mode", mode, "--output", keys[mode], "--tree-depth", fmt.Sprint(depthOf[mode]), "--batch-size", fmt.Sprint(*b))
 		if r.code != 0 || r.stdout != "" {
 			emit("cli\tsetup "+mode, fmt.Sprintf("exit %d stdout %q stderr tail %q", r.code, r.stdout, tail(r.stderr)))
 			return
@@ -123,7 +128,7 @@ func main() {
 	other := map[string]string{"insertion": "deletion", "deletion": "insertion"}
 	for _, mode := range []string{"insertion", "deletion"} {
 		// the documented pipeline: gen-test-params | prove | verify
-		gp := run(nil, "gen-test-params", "--mode", mode, "--tree-depth", fmt.Sprint(*d), "--batch-size", fmt.Sprint(*b))
+		gp := run(nil, "gen-test-params", "--mode", mode, "--tree-depth", fmt.Sprint(depthOf[mode]), "--batch-size", fmt.Sprint(*b))
 		name := "pipeline " + mode
 		if gp.code != 0 {
 			emit("cli\t"+name, "gen-test-params failed: "+tail(gp.stderr))
@@ -155,9 +160,9 @@ func main() {
 				h = new(big.Int).Set(&p.InputHash)
 				hother = batchgen.HashInsertion(p.StartIndex+1, &p.PreRoot, &p.PostRoot, p.IdComms)
 			} else {
-				p, _ := batchgen.Deletion(g, *d, *b)
+				p, _ := batchgen.Deletion(g, *dd, *b)
 				doc, _ = json.Marshal(p)
-				line = fmt.Sprintf("prove\tdeletion\t%d\t%d\t%s", *d, *b, batchgen.CanonDeletion(p))
+				line = fmt.Sprintf("prove\tdeletion\t%d\t%d\t%s", *dd, *b, batchgen.CanonDeletion(p))
 				h = new(big.Int).Set(&p.InputHash)
 				hother = batchgen.HashDeletion(p.DeletionIndices, &p.PostRoot, &p.PreRoot)
 			}
